@@ -37,7 +37,8 @@ CfgMap(fmt, s, par) ==
   CASE fmt = "rwms" -> LET step == s[Len(s)] - s[Len(s) - 1]  m == [i \in DOMAIN s |-> s[i] \div step]
                        IN IF m[1] > 1 /\ step > 1 THEN ShiftToOne(m) ELSE m
     [] fmt \in {"qtop", "gfms", "msE"} -> LET steps == s[2] - s[1]  m == [i \in DOMAIN s |-> s[i] \div steps]
-                                   IN IF m[1] > 1 THEN ShiftToOne(m) ELSE m
+                                   \* (assume_thermalization=False, par.nothermal: the numbers of the file are kept as they are)
+                                   IN IF m[1] > 1 /\ ~("nothermal" \in DOMAIN par) THEN ShiftToOne(m) ELSE m
     [] fmt = "pbp" -> [i \in DOMAIN s |-> i]    \* this reader keeps no configuration numbers: records count from 1 by position
     [] OTHER -> s
 
